@@ -79,6 +79,7 @@ func cmdRun(args []string) {
 	unwind := fs.Int("unwind", 64, "unwinding bound")
 	maxPaths := fs.Int("maxpaths", 0, "stop after n paths")
 	params := fs.String("params", "", "k=v,k=v")
+	stubs := fs.String("stubs", "", "target=pkg.Func,... (~ = module path)")
 	fs.Parse(args)
 	vd, rd := verifDir(), repoDir()
 	ov := baseOverlay(vd, rd)
@@ -112,6 +113,13 @@ func cmdRun(args []string) {
 		p := strings.SplitN(kv, "=", 2)
 		n, _ := strconv.Atoi(p[1])
 		P.params[p[0]] = n
+	}
+	for _, kv := range strings.Split(*stubs, ",") {
+		if kv == "" {
+			continue
+		}
+		p := strings.SplitN(kv, "=", 2)
+		P.stubs[strings.ReplaceAll(p[0], "~", repoModule)] = strings.ReplaceAll(p[1], "~", repoModule)
 	}
 	fn := P.findFunc(pkgPath, *entry)
 	if fn == nil {
